@@ -4,7 +4,7 @@
 
 Task S3 adds: C13 the INTEGER TAIL of `calc_sub_max_bonds` (fragment `calc_sub_max_bonds.tail`; the float head stays
 outside), C16 `get_u1u1_charges` and `choose_duals`, C04 the label scan of `resolve_combined_oddpos` (fragment
-`resolve_combined_oddpos.scan`, a `while` loop with explicit fuel).
+`resolve_combined_oddpos.scan`, a `while` loop with explicit fuel), C19 `parse_edges_to_site_info`.
 
 `run_tie(ctx, functions)`:
   1. regenerates lean/SymmModel/Gen/Src.lean from $SYMMRAY_REPO with harness/translate.py (rewritten on
@@ -123,6 +123,13 @@ GROUPS = {
         theorems=[_G + n for n in ("calc_sub_max_bonds_tail_eq", "calcSubMaxBonds_eq_tail", "pySum_map_ofNat",
                                    "pyListSet_bump", "tail_fold")],
     ),
+    "C19b": dict(
+        module="SymmModel.Gen.TieNet",
+        functions=["parse_edges_to_site_info"],
+        theorems=[_G + n for n in ("parse_edges_to_site_info_eq", "parse_unfold", "bondBody_core", "bondCore_eq", "chain_eq",
+                                   "bondBody_cast", "bond_fold", "sorted_edges", "physBody_eq", "site_loop", "finish_rec",
+                                   "dict_ext")],
+    ),
     "C04b": dict(
         module="SymmModel.Gen.TieFermi",
         functions=["resolve_combined_oddpos.scan"],
@@ -134,10 +141,11 @@ FUNCTIONS = {k: list(v["functions"]) for k, v in GROUPS.items()}
 FUNCTIONS["C05"] = FUNCTIONS["C05"] + FUNCTIONS.pop("C05b")  # run_tie selects every group that contains one of them
 FUNCTIONS["C13"] = FUNCTIONS["C13"] + FUNCTIONS.pop("C13b")
 FUNCTIONS["C04"] = FUNCTIONS["C04"] + FUNCTIONS.pop("C04b")
+FUNCTIONS["C19"] = FUNCTIONS["C19"] + FUNCTIONS.pop("C19b")
 # functions the translator is asked for but which are outside its subset on the reference tree (no Tie theorem)
 # (S3: of `calc_sub_max_bonds` the integer tail, of `resolve_combined_oddpos` the label scan are tied as fragments; the
 # float head / the object mutations around the scan stay outside)
-NOT_TIED = ["calc_sub_max_bonds", "parse_edges_to_site_info", "resolve_combined_oddpos"]
+NOT_TIED = ["calc_sub_max_bonds", "resolve_combined_oddpos"]
 HAMS = ("ham_tfim_from_edges", "ham_fermi_hubbard_from_edges", "ham_fermi_hubbard_spinless_from_edges")
 
 
@@ -237,7 +245,7 @@ def _run_tie_locked(ctx, functions, groups, timeout):
                 logs.append(f"{g['module']}: axiom audit failed: {json.dumps(bad)[:600]}")
         forb = ctx.lean.grep_forbidden([GEN_DIR / n for n in (
             "Prelude.lean", "PyLemmas.lean", "Src.lean", "Tie.lean", "TieSym.lean", "TieKoszul.lean", "TieUtil.lean",
-            "TieDict.lean", "TieFuse.lean", "TieRand.lean", "TieFermi.lean", "TieTrunc.lean")])
+            "TieDict.lean", "TieFuse.lean", "TieRand.lean", "TieFermi.lean", "TieTrunc.lean", "TieNet.lean")])
         if forb:
             proved = False
             logs.append("forbidden tokens: " + "; ".join(forb[:5]))
@@ -395,6 +403,17 @@ def box_cases(func):
         alts = ["equal", None, True, False]
         alts += [list(c) for n in range(0, 4) for c in itertools.product((None, False, True), repeat=n)]
         return [[d, ndim] for d in alts for ndim in range(0, 4)]
+    if func == "parse_edges_to_site_info":  # [edges, bond_dim, phys_dim]; sites 0..3, also reversed, repeated, self-loop
+        pairs = [(a, b) for a in range(4) for b in range(4)]
+        out = [[[], 3, 2], [[], 3, None]]
+        for n in (1, 2, 3):
+            for es in itertools.product(pairs, repeat=n):
+                if n == 3 and not (es[0] <= es[1] <= es[2] and es[0][0] <= 1):
+                    continue
+                out.append([[list(e) for e in es], 3, 2])
+                if n <= 2:
+                    out.append([[list(e) for e in es], 2, None])
+        return out[:1500]
     if func == "resolve_combined_oddpos.scan":  # operators as [label, dual]; a label at most twice
         ops = [[l, d] for l in (1, 2, 3) for d in (False, True)]
         out = [[[]]]
@@ -490,6 +509,12 @@ def call_real(func, args):
         return [-1 if x is None else int(bool(x)) for x in r]
     if func == "resolve_combined_oddpos.scan":
         return _real_scan(args[0])
+    if func == "parse_edges_to_site_info":
+        from symmray import networks
+
+        r = networks.parse_edges_to_site_info([tuple(e) for e in args[0]], args[1], phys_dim=args[2])
+        return [(k, [str(x) for x in v["inds"]], [int(x) for x in v["duals"]], [int(x) for x in v["shape"]],
+                 int(v["coordination"]), [str(x) for x in v["tags"]]) for k, v in r.items()]
     raise KeyError(func)
 
 
@@ -657,6 +682,25 @@ def oracle(func, args):
         return [enc(x) for x in d] if len(d) == ndim else "ValueError"
     if func == "resolve_combined_oddpos.scan":
         return _scan_oracle(args[0])
+    if func == "parse_edges_to_site_info":
+        # C19: every edge is one bond between its two ends, named by the ordered pair, outgoing (0) at the smaller end and
+        # incoming (1) at the larger one; sites in order of first appearance in the sorted edge list; coordination = number
+        # of bonds at the site; the physical leg (dual 0) comes last
+        edges, bd, pd = args
+        canon = [(min(a, b), max(a, b)) for a, b in sorted(tuple(e) for e in edges)]
+        order = []
+        for a, b in canon:
+            for v in (a, b):
+                if v not in order:
+                    order.append(v)
+        out = []
+        for v in order:
+            legs = [(f"b{a}-{b}", d) for a, b in canon for d, w in ((0, a), (1, b)) if w == v]
+            inds, duals, shape = [n for n, _ in legs], [d for _, d in legs], [bd] * len(legs)
+            if pd is not None:
+                inds, duals, shape = inds + [f"k{v}"], duals + [0], shape + [pd]
+            out.append((v, inds, duals, shape, len(legs), [f"I{v}"]))
+        return out
     raise KeyError(func)
 
 
@@ -709,6 +753,14 @@ def nAx (n : Nat) (ax : Int) : Nat := (Int.fmod ax n).toNat
 def tup (l : List String) : String := "(" ++ ", ".intercalate l ++ ")"
 def gOps (j : Json) : List (Int × Bool) := (gA j).map (fun p => (gI ((gA p).getD 0 Json.null), gB ((gA p).getD 1 Json.null)))
 def gE (j : Json) : List (Nat × Nat) := (gLP j).map (fun p => (p.1.toNat, p.2.toNat))
+def lst (l : List String) : String := "[" ++ ", ".intercalate l ++ "]"
+def qlst (l : List String) : String := lst (l.map (fun s => "\\"" ++ s ++ "\\""))
+def fillFmt : List String → List Int → String
+  | [], _ => ""
+  | [s], _ => s
+  | s :: rest, [] => s ++ "{}" ++ fillFmt rest []
+  | s :: rest, a :: as => s ++ toString a ++ fillFmt rest as
+%(pyname)s
 
 def evalOne (f : String) (a : List Json) : String × String :=
   let a0 := a.getD 0 Json.null
@@ -827,6 +879,21 @@ def _lean_case(func, gen_ok):
                    '      | .ok l => enc l | .error (.raised c) => "\\"" ++ c ++ "\\"" | .error .outOfFuel => "\\"outOfFuel\\""\n'
                    if gen_ok else "")
                 + "    (m, " + g("gg") + ")")
+    if func == "parse_edges_to_site_info":
+        return ('  | "parse_edges_to_site_info" =>\n'
+                "    let pdm : Option Nat := if a2.isNull then none else some (gI a2).toNat\n"
+                "    let m := parseEdges (gE a0) (gI a1).toNat pdm\n"
+                '    let nm (n : IndName) : String := match n with | .bond a b => s!"b{a}-{b}" | .phys v => s!"k{v}"\n'
+                '    let ms := lst (m.map (fun p => tup [toString p.1, qlst (p.2.legs.map (fun l => nm l.name)), '
+                'toString (p.2.legs.map (·.dual)), toString (p.2.legs.map (·.dim)), toString p.2.coordination, '
+                'qlst [s!"I{p.2.tag}"]]))\n'
+                + ('    let r := Gen.parse_edges_to_site_info (gLP a0) (gI a1) (if a2.isNull then none else some (gI a2)) '
+                   'Gen.parse_edges_to_site_info.default_site_ind_id Gen.parse_edges_to_site_info.default_bond_ind_id '
+                   'Gen.parse_edges_to_site_info.default_site_tag_id\n'
+                   '    let gs := lst (r.map (fun p => tup [toString p.1, qlst ((p.2.inds.getD []).map pyNameStr), '
+                   'toString (p.2.duals.getD []), toString (p.2.shape.getD []), toString (p.2.coordination.getD (-1)), '
+                   'qlst ((p.2.tags.getD []).map pyNameStr)]))\n' if gen_ok else "")
+                + "    (ms, " + g("gs") + ")")
     if func == "resolve_combined_oddpos.scan":
         return ('  | "resolve_combined_oddpos.scan" =>\n'
                 "    let l := gOps a0\n"
@@ -863,7 +930,10 @@ def lean_box(funcs, cases, rep, timeout=300):
             arms.append(arm)
     if not arms:
         return None, "no Lean evaluator for these functions"
-    script = _LEAN_HEAD % dict(import_src="import SymmModel.Gen.Src" if src_ok else "", cases="\n".join(arms))
+    pyname = ('def pyNameStr : Gen.PyName → String\n  | .fmt t args => fillFmt (t.splitOn "{}") args\n'
+              '  | .fmtStar t a => fillFmt (t.splitOn "{}") [a]' if src_ok else "")
+    script = _LEAN_HEAD % dict(import_src="import SymmModel.Gen.Src" if src_ok else "", cases="\n".join(arms),
+                               pyname=pyname)
     adir = core.LEAN_DIR / ".lake" / "audit"
     adir.mkdir(parents=True, exist_ok=True)
     f = adir / f"TieBox_{os.getpid()}.lean"
